@@ -26,7 +26,7 @@ import (
 )
 
 func init() {
-	const expl = "(FLOW, value flow): in package query a ConditionsSet that derives from the stored conditions of a tag (TagDetails.Conditions) is handed to ConditionsSet.invert only over an edge of a condition that asks, through a function of the package that reads SubQuery/SubQueries fields, whether that set uses sub-queries of its own. An alternative is existential in its sub-queries; negating it condition by condition gives 'there is a stream x that does not fit' instead of 'there is no stream x that fits', so `-tag:t` answers differently while t is pending and after it was decided whenever the definition of t has a sub-query. OPEN known finding: no such test exists."
+	const expl = "(FLOW, value flow): in package query a ConditionsSet that derives from the stored conditions of a tag (TagDetails.Conditions) is handed to ConditionsSet.invert only over an edge of a condition that asks, through a function of the package that reads SubQuery/SubQueries fields, whether that set uses sub-queries of its own. An alternative is existential in its sub-queries; negating it condition by condition gives 'there is a stream x that does not fit' instead of 'there is no stream x that fits', so `-tag:t` answers differently while t is pending and after it was decided whenever the definition of t has a sub-query. The test was missing (#70); with it, such tags are never inlined: index.SearchStreams decides them for their pending streams before it inlines the others."
 	register("C06", "C06-o "+expl, func(p *Prog, r *Res) {
 		ruleNoNegationOfExistential(p, r, "C06-o stored-set-with-sub-queries-not-negated")
 	})
@@ -117,9 +117,32 @@ func ruleNoNegationOfExistential(p *Prog, r *Res, rule string) {
 			rtxt := exprString(p.Fset, ast.Unparen(se.X))
 			key := fmt.Sprintf("%s negates %s", f.Key(), rtxt)
 			fl := p.Flow(f)
-			asks := func(e ast.Expr) bool {
+			var asks func(e ast.Expr) bool
+			asks = func(e ast.Expr) bool {
 				hit := false
 				ast.Inspect(e, func(y ast.Node) bool {
+					// a local that holds the answer (`own := td.Conditions.SubQueries(); if len(own) > 1`)
+					if id, ok := y.(*ast.Ident); ok && !hit {
+						if o := info.Uses[id]; o != nil {
+							var defs []ast.Expr
+							inspectShallow(f.Body(), func(z ast.Node) bool {
+								if as, ok := z.(*ast.AssignStmt); ok && len(as.Lhs) == len(as.Rhs) {
+									for i, l := range as.Lhs {
+										if identObj(info, l) == o {
+											defs = append(defs, as.Rhs[i])
+										}
+									}
+								}
+								return true
+							})
+							if len(defs) == 1 {
+								if _, isCall := ast.Unparen(defs[0]).(*ast.CallExpr); isCall && asks(defs[0]) {
+									hit = true
+								}
+							}
+						}
+						return !hit
+					}
 					gc, ok := y.(*ast.CallExpr)
 					if !ok {
 						return true
@@ -128,12 +151,13 @@ func ruleNoNegationOfExistential(p *Prog, r *Res, rule string) {
 					if gfn == nil || !readsSubQuery[p.FnOfObj(gfn)] {
 						return true
 					}
+					// asked of the set that is negated, or of the stored set it was made from
 					onSet := false
-					if gs, ok := ast.Unparen(gc.Fun).(*ast.SelectorExpr); ok && exprString(p.Fset, ast.Unparen(gs.X)) == rtxt {
+					if gs, ok := ast.Unparen(gc.Fun).(*ast.SelectorExpr); ok && (exprString(p.Fset, ast.Unparen(gs.X)) == rtxt || derives(gs.X, map[types.Object]bool{})) {
 						onSet = true
 					}
 					for _, a := range gc.Args {
-						if exprString(p.Fset, ast.Unparen(a)) == rtxt {
+						if exprString(p.Fset, ast.Unparen(a)) == rtxt || derives(a, map[types.Object]bool{}) {
 							onSet = true
 						}
 					}
